@@ -29,10 +29,15 @@
 //! 5. **`friphase`** (correspondence with `P3R.Packing.friPhases` + oracle): the real
 //!    `RecursivePcs::verify_circuit` on one FRI query with generated FRI parameters, folding schedule
 //!    and Merkle cap heights; which openings the built circuit hashes is read off its graph.
+//! 5b. **`sibcheck`** (correspondence with `P3R.Packing.friSibCheck` + oracle): the shape loop at the head
+//!    of the real `verify_fri_circuit` (through `RecursivePcs::verify_circuit`) on generated per-query
+//!    (log-arity, sibling count) tables: a malformed sibling count must be refused when the circuit is
+//!    built (repair /repo fc0321f; before it the runner refused the packed vector instead).
 //! 6. **Merkle caps**: campaign setups `<cfg>.<uni|batch>_cap<h>` (2.-3. on proofs whose MMCSs have a
 //!    cap of height `h`), and two static oracles on every honest verifier circuit (`static_oracles`).
 //!
-//! Files: `c14.cases`, `c14.impl`, `c14m.cases`, `c14m.impl`, `c14p.cases`, `c14p.impl`, `c14.report.json`.
+//! Files: `c14.cases`, `c14.impl`, `c14m.cases`, `c14m.impl`, `c14p.cases`, `c14p.impl`, `c14s.cases`, `c14s.impl`,
+//! `c14.report.json`.
 
 use std::collections::{BTreeMap, HashMap, HashSet};
 use std::io::Write;
@@ -124,7 +129,8 @@ pub struct Case {
     pub shape: Shape,
     #[serde(default)]
     pub origin: String,
-    /// expected outcome for malformed corpus shapes: "rejected"
+    /// expected outcome for malformed corpus shapes: "build-rejected" = allocate / pack / run accepts
+    /// the vectors (lengths agree) and the verifier-circuit builder refuses the sibling counts
     #[serde(default)]
     pub expect: String,
 }
@@ -286,7 +292,9 @@ fn g_pcs(r: &mut Rng, hiding: bool, salted: bool, rounds: usize) -> Pcs {
                 .collect();
             let steps = arities
                 .iter()
-                .map(|&la| Step { log_arity: la, siblings: (1usize << la) - 1, salts: g_salts(r, salted, 1) })
+                // mostly well-formed; a few steps carry a different number of siblings (allocation and
+                // packing must agree on those too: both read `sibling_values.len()`)
+                .map(|&la| Step { log_arity: la, siblings: if r.chance(1, 16) { r.range(0, 9) } else { (1usize << la) - 1 }, salts: g_salts(r, salted, 1) })
                 .collect();
             Query { input, steps }
         })
@@ -522,6 +530,112 @@ pub fn gen_phase_case(r: &mut Rng, cfg: &str) -> PhaseCase {
     }
     c.in_cap = cap(r, c.log_max());
     c
+}
+
+/// One `sibcheck` case: per query proof its commit-phase steps `(log_arity, sibling_values.len())`.
+#[derive(Clone, Debug, Serialize, Deserialize)]
+pub struct SibCase {
+    pub cfg: String,
+    pub queries: Vec<Vec<(usize, usize)>>,
+    #[serde(default)]
+    pub origin: String,
+}
+
+impl SibCase {
+    pub fn line(&self) -> String {
+        let mut t = vec![4usize, self.queries.len()];
+        for q in &self.queries {
+            t.push(q.len());
+            for (a, s) in q {
+                t.push(*a);
+                t.push(*s);
+            }
+        }
+        format!("sibcheck {}", t.iter().map(|x| x.to_string()).collect::<Vec<_>>().join(" "))
+    }
+    /// Independent statement of what must be accepted (not the model's control flow): at least one
+    /// phase-consistent schedule, no arity-1 phase, and every step carries `2^log_arity - 1` siblings.
+    pub fn well_formed(&self) -> bool {
+        let Some(first) = self.queries.first() else { return true };
+        let sched: Vec<usize> = first.iter().map(|p| p.0).collect();
+        sched.iter().all(|&a| a >= 1)
+            && self.queries.iter().all(|q| {
+                q.iter().map(|p| p.0).collect::<Vec<_>>() == sched
+                    && q.iter().all(|&(a, s)| a < 40 && s == (1usize << a) - 1)
+            })
+    }
+    /// the only discrepancy is in sibling counts
+    pub fn only_siblings_malformed(&self) -> bool {
+        let mut c = self.clone();
+        for q in &mut c.queries {
+            for p in q.iter_mut() {
+                p.1 = if p.0 < 40 { (1usize << p.0) - 1 } else { usize::MAX };
+            }
+        }
+        !self.well_formed() && c.queries.iter().flatten().all(|p| p.0 < 40) && c.well_formed()
+    }
+}
+
+/// 1-3 queries over a schedule of 0-4 phases (log-arity 1-5), then: nothing (well-formed), or one
+/// to two discrepancies — a sibling count off by one / zero / doubled / the neighbouring arity's, a
+/// step's log-arity changed, a step dropped or added, a schedule entry 0 — or a huge log-arity
+/// (28-255, where `2^log_arity` does not fit the field / a `usize`).
+///
+/// `huge = false` leaves the huge log-arities out, `huge = true` puts one into every case: the two
+/// families run in separate harness processes, because code that sizes an allocation with
+/// `2^log_arity` (the behaviour before /repo fc0321f) is killed by the OS rather than failing a check.
+pub fn gen_sib_case(r: &mut Rng, cfg: &str, huge: bool) -> SibCase {
+    let n = r.range(0, 4);
+    let sched: Vec<usize> = (0..n).map(|_| *r.pick(&[1usize, 1, 1, 2, 2, 3, 4, 5])).collect();
+    let nq = r.range(1, 3);
+    let mut queries: Vec<Vec<(usize, usize)>> = (0..nq).map(|_| sched.iter().map(|&a| (a, (1usize << a) - 1)).collect()).collect();
+    let kinds = if huge { r.range(1, 2) } else if r.chance(1, 4) { 0 } else if r.chance(3, 4) { 1 } else { 2 };
+    for i in 0..kinds {
+        let q = r.usize(nq);
+        let len = queries[q].len();
+        match if huge && i == 0 { 9 } else { r.range(0, 8) } {
+            0..=4 if len > 0 => {
+                let k = r.usize(len);
+                let (_, s) = queries[q][k];
+                queries[q][k].1 = match r.range(0, 5) {
+                    0 => s + 1,
+                    1 => s.saturating_sub(1),
+                    2 => 0,
+                    3 => 2 * s + 1,            // what arity 2^(a+1) would carry
+                    4 => s / 2,                // what arity 2^(a-1) would carry
+                    _ => s + r.range(2, 5),
+                };
+            }
+            5 if len > 0 => {
+                let k = r.usize(len);
+                queries[q][k].0 = (queries[q][k].0 + 1) % 6; // sibling count left as it was
+            }
+            6 if len > 0 => {
+                queries[q].pop();
+            }
+            7 => queries[q].push((1, 1)),
+            8 if len > 0 => {
+                let k = r.usize(len);
+                queries[q][k] = (0, r.range(0, 1));
+            }
+            _ if len > 0 => {
+                let k = r.usize(len);
+                queries[q][k] = (*r.pick(&[28usize, 31, 32, 40, 62, 63, 64, 65, 128, 255]), r.range(0, 3));
+            }
+            _ if huge => queries[q].push((*r.pick(&[28usize, 33, 63, 64, 200, 255]), r.range(0, 3))),
+            _ => queries[q].push((2, 2)),
+        }
+    }
+    SibCase { cfg: cfg.to_string(), queries, origin: "gen".into() }
+}
+
+fn run_sibcheck(c: &SibCase) -> Option<String> {
+    match c.cfg.as_str() {
+        "bb_plain" => Some(bb_plain::sibcheck(&c.queries)),
+        "bb_hid" => Some(bb_hid::sibcheck(&c.queries)),
+        "bb_salted" => Some(bb_salted::sibcheck(&c.queries)),
+        _ => None,
+    }
 }
 
 fn run_friphase(c: &PhaseCase) -> Option<String> {
@@ -917,6 +1031,8 @@ pub fn main(args: &crate::Args) {
     let shapes = args.u64("shapes", 50) as usize;
     let merges = args.u64("merges", 0) as usize;
     let n_phase_cases = args.u64("phases", 0) as usize;
+    let n_sib_cases = args.u64("sibs", 0) as usize;
+    let sib_huge = args.u64("sib-huge", 0) == 1;
     let per_kind = args.u64("per-kind", 1) as usize;
     let do_campaign = args.u64("campaign", 1) == 1;
     let which = args.str("setups", "all");
@@ -1004,6 +1120,7 @@ pub fn main(args: &crate::Args) {
     let mut todo: Vec<Case> = vec![];
     let mut merge_todo: Vec<MergeCase> = vec![];
     let mut phase_todo: Vec<PhaseCase> = vec![];
+    let mut sib_todo: Vec<SibCase> = vec![];
     if let Some(dir) = args.opt("corpus") {
         let mut files: Vec<_> = std::fs::read_dir(&dir).map(|d| d.filter_map(|e| e.ok()).map(|e| e.path()).collect()).unwrap_or_default();
         files.sort();
@@ -1025,8 +1142,23 @@ pub fn main(args: &crate::Args) {
                 }
                 continue;
             }
+            if v.get("queries").is_some() {
+                if let Ok(mut c) = serde_json::from_value::<SibCase>(v) {
+                    c.origin = format!("corpus:{}", f.file_name().unwrap().to_string_lossy());
+                    sib_todo.push(c);
+                }
+                continue;
+            }
             if let Ok(mut c) = serde_json::from_value::<Case>(v) {
                 c.origin = format!("corpus:{}", f.file_name().unwrap().to_string_lossy());
+                if c.expect == "build-rejected" && c.cfg != "gl_plain" {
+                    // the same per-query folding data through the real verifier-circuit builder
+                    sib_todo.push(SibCase {
+                        cfg: c.cfg.clone(),
+                        queries: c.shape.pcs().fri.queries.iter().map(|q| q.steps.iter().map(|s| (s.log_arity, s.siblings)).collect()).collect(),
+                        origin: format!("{}:build-rejected", c.origin),
+                    });
+                }
                 todo.push(c);
             }
         }
@@ -1209,6 +1341,67 @@ pub fn main(args: &crate::Args) {
     pcases_f.flush().unwrap();
     pimpl_f.flush().unwrap();
 
+    // ---- sibcheck correspondence (`P3R.Packing.friSibCheck` vs the shape loop at the head of the
+    // real `verify_fri_circuit`, reached through `RecursivePcs::verify_circuit`)
+    let mut scases_f = std::io::BufWriter::new(std::fs::File::create(format!("{out}/c14s.cases")).unwrap());
+    let mut simpl_f = std::io::BufWriter::new(std::fs::File::create(format!("{out}/c14s.impl")).unwrap());
+    let mut sib_rng = Rng::new(seed ^ 0x5349_4253);
+    for i in 0..n_sib_cases {
+        let mut r = sib_rng.fork();
+        sib_todo.push(gen_sib_case(&mut r, ["bb_plain", "bb_salted", "bb_hid", "bb_plain"][i % 4], sib_huge));
+    }
+    let mut sib_evals = 0u64;
+    let mut sib_distinct = HashSet::new();
+    for c in &sib_todo {
+        let Some(ans) = run_sibcheck(c) else {
+            bump(&mut hist, "sib.skipped.bad-cfg");
+            continue;
+        };
+        sib_evals += 1;
+        let line = c.line();
+        writeln!(scases_f, "{line}").unwrap();
+        writeln!(simpl_f, "{ans}").unwrap();
+        sib_distinct.insert(format!("{} {}", c.cfg, line));
+        bump(&mut hist, &format!("sib.cfg.{}", c.cfg));
+        bump(&mut hist, &format!("sib.queries.{}", c.queries.len()));
+        bump(&mut hist, &format!("sib.phases.{}", c.queries.first().map_or(0, |q| q.len())));
+        bump(&mut hist, if c.well_formed() { "sib.shape.well-formed" } else if c.only_siblings_malformed() { "sib.shape.siblings-malformed" } else { "sib.shape.otherwise-malformed" });
+        if c.queries.first().map_or(0, |q| q.iter().map(|p| p.0).sum::<usize>()) + 1 > 27 {
+            bump(&mut hist, "sib.route.verify_fri_circuit-direct");
+        } else {
+            bump(&mut hist, "sib.route.pcs-verify_circuit");
+        }
+        let head: String = ans.trim_start_matches("sibcheck ").split(':').take(2).collect::<Vec<_>>().join(":");
+        bump(&mut hist, &format!("sib.answer.{head}"));
+        if c.origin.starts_with("corpus:") {
+            corpus_notes.push(format!("{} -> {}", c.origin, ans));
+        }
+        // oracle (independent of the model)
+        let replay = serde_json::to_value(c).unwrap();
+        let class = if ans.starts_with("sibcheck panic") {
+            Some(("sibling-count-panics", "the verifier-circuit builder panics on these sibling counts / log-arities instead of returning InvalidProofShape"))
+        } else if ans.starts_with("sibcheck other") {
+            Some(("sibcheck-unexpected-error", "the verifier-circuit builder stopped at a check outside the per-query folding data"))
+        } else if ans == "sibcheck ok" && !c.well_formed() {
+            Some(("malformed-siblings-built", "a verifier circuit was built for a FRI proof whose commit-phase steps do not carry 2^log_arity - 1 siblings each / do not follow one schedule"))
+        } else if ans != "sibcheck ok" && c.well_formed() {
+            Some(("wellformed-siblings-refused", "the verifier-circuit builder refuses well-formed commit-phase steps"))
+        } else if c.only_siblings_malformed() && !ans.starts_with("sibcheck error:sib:") {
+            Some(("malformed-siblings-wrong-refusal", "sibling counts are the only discrepancy but another check fired"))
+        } else if c.origin.ends_with(":build-rejected") && !ans.starts_with("sibcheck error:sib:") {
+            Some(("malformed-siblings-built", "corpus case expected to be refused on its sibling count when the verifier circuit is built"))
+        } else {
+            None
+        };
+        if let Some((class, what)) = class {
+            bump(&mut hist, &format!("violation.{class}"));
+            violations.push(json!({"property":"C14","kind":"sibcheck","class":class,
+                "detail": {"answer": ans, "cfg": c.cfg, "what": what}, "line": line, "replay": replay}));
+        }
+    }
+    scases_f.flush().unwrap();
+    simpl_f.flush().unwrap();
+
     // campaign results
     let mut campaign = vec![];
     let mut perturbations = 0u64;
@@ -1293,6 +1486,19 @@ pub fn main(args: &crate::Args) {
                             }
                         }
                     }
+                    // repair /repo fc0321f: a proof with a sibling pushed / popped or a log_arity changed has
+                    // packed vectors of exactly the allocated lengths; it must be refused while the verifier
+                    // circuit is emitted (InvalidProofShape), not later by the runner, and not by a panic
+                    if (k.ends_with(".sib") || k.ends_with(".log_arity")) && k.starts_with("fri.q#.ph#") && p.label != "restore" {
+                        bump(&mut hist, &format!("shape.siblings.{}", if p.circuit_err.starts_with("verifier-circuit:") { "refused-at-build" } else if p.circuit_ok { "accepted" } else { "refused-elsewhere" }));
+                        if !p.circuit_err.starts_with("verifier-circuit:") {
+                            violations.push(json!({"property":"C14","kind":"shape-perturbation","class":format!("malformed-siblings-not-refused-at-build:{ko}"),
+                                "detail": {"setup": p.setup, "container": p.label, "mutation": p.op, "native_ok": p.native_ok,
+                                           "circuit": if p.circuit_ok { "built and accepted".to_string() } else { p.circuit_err.clone() },
+                                           "what": "sibling count / log_arity of a commit-phase step changed: the verifier-circuit builder must return InvalidProofShape"},
+                                "replay": replay.clone()}));
+                        }
+                    }
                     if p.circuit_ok || p.native_ok {
                         shape_accepted.push(json!({"container": p.label, "mutation": p.op, "native_ok": p.native_ok, "circuit_ok": p.circuit_ok, "circuit": p.circuit_err}));
                     }
@@ -1343,6 +1549,7 @@ pub fn main(args: &crate::Args) {
     let report = json!({"evaluations": evaluations, "distinct": distinct.len(), "inputs_checked": inputs_checked,
         "merge_evaluations": merge_evals, "merge_distinct": merge_distinct.len(),
         "phase_evaluations": phase_evals, "phase_distinct": phase_distinct.len(),
+        "sib_evaluations": sib_evals, "sib_distinct": sib_distinct.len(),
         "perturbations": perturbations, "hist": hist, "violations": violations, "samples": samples, "seed": seed,
         "campaign": campaign, "corpus_notes": corpus_notes});
     std::fs::write(format!("{out}/c14.report.json"), serde_json::to_string_pretty(&report).unwrap()).unwrap();
